@@ -479,6 +479,17 @@ def _eq(left: object, right: object) -> bool:  # noqa: PLR0911
     if isinstance(left, bool):
         return isinstance(right, bool) and left == right
 
+    # Compare arrays and objects element-wise so that 1 != true at any depth.
+    if isinstance(left, list) and isinstance(right, list):
+        return len(left) == len(right) and all(
+            _eq(a, b) for a, b in zip(left, right)  # noqa: B905
+        )
+
+    if isinstance(left, dict) and isinstance(right, dict):
+        return left.keys() == right.keys() and all(
+            _eq(val, right[key]) for key, val in left.items()
+        )
+
     return left == right
 
 
